@@ -2,7 +2,7 @@
    Statements only; proofs are in CdcCheck.v, CdcSound.v, CdcWorklist.v, CdcSpecExec.v.
    Model and specification: CdcDefs.v.  Non-vacuity: CdcExamples.v. *)
 From Coq Require Import List NArith Bool Arith Permutation.
-From Gatery Require Import CdcDefs CdcCheck CdcSound CdcWorklist CdcSpecExec CdcExamples.
+From Gatery Require Import CdcDefs CdcClocks CdcCheck CdcSound CdcWorklist CdcSpecExec CdcExamples.
 Import ListNotations.
 
 (* Soundness.  For EVERY map [dom] that satisfies the fixpoint characterisation of what
@@ -119,3 +119,71 @@ Example spec_verdict_examples :
   has_crossing ex_unmarked /\ ~ has_crossing ex_marked
   /\ flagged ex_unmarked (infer_real ex_unmarked) = [3%N].
 Proof. exact (conj ex_unmarked_crossing (conj ex_marked_no_crossing ex_unmarked_rejected)). Qed.
+
+(* ------------------------------------------------------------------ *)
+(* Which clocks are one domain.  [pin_source] as a function of the parent chain and of whether the
+   clock net is driven by logic in the simulation view / in the export view. *)
+
+(* A clock inherits its parent's pin source exactly when it has a parent, its clock net is driven by
+   logic in NEITHER view, it keeps the parent's name and frequency and is phase locked to it. *)
+Theorem clock_inherits_iff : forall cs ck,
+  inherits cs ck = true <->
+  exists p pk, cparent ck = Some p /\ nth_error cs p = Some pk
+    /\ cselfsim ck = true /\ cselfexp ck = true
+    /\ cname pk = cname ck /\ cfnum pk = cfnum ck /\ cfden pk = cfden ck /\ cphase ck = true.
+Proof. exact inherits_iff. Qed.
+Print Assumptions clock_inherits_iff.
+
+(* One step along the parent chain (clocks listed parents first, as Circuit::getClocks() does). *)
+Theorem pin_source_rule : forall n c ck,
+  clocks_ok (clks n) = true -> nth_error (clks n) c = Some ck ->
+  pin_source n c =
+    if inherits (clks n) ck
+    then match cparent ck with Some p => pin_source n p | None => c end
+    else c.
+Proof. exact pin_source_unfold. Qed.
+Print Assumptions pin_source_rule.
+
+(* A clock whose net is driven by logic in at least ONE view (export only, simulation only, or both)
+   is its own pin source, whatever its parent, name and frequency. *)
+Theorem one_view_driven_clock_is_own_domain : forall n c ck,
+  nth_error (clks n) c = Some ck ->
+  cselfsim ck = false \/ cselfexp ck = false ->
+  pin_source n c = c.
+Proof. exact logic_driven_own_source. Qed.
+Print Assumptions one_view_driven_clock_is_own_domain.
+
+Theorem undriven_derived_clock_shares_parent_domain : forall n c ck p pk,
+  clocks_ok (clks n) = true -> nth_error (clks n) c = Some ck ->
+  cparent ck = Some p -> nth_error (clks n) p = Some pk ->
+  cselfsim ck = true -> cselfexp ck = true ->
+  cname pk = cname ck -> cfnum pk = cfnum ck -> cfden pk = cfden ck -> cphase ck = true ->
+  pin_source n c = pin_source n p.
+Proof. exact undriven_derived_shares_parent. Qed.
+Print Assumptions undriven_derived_clock_shares_parent_domain.
+
+Example driven_clock_examples :
+  clocks_ok (drv_clocks true false) = true
+  /\ pin_source (drv_unmarked true true) 1 = 0
+  /\ pin_source (drv_unmarked true false) 1 = 1
+  /\ pin_source (drv_unmarked false true) 1 = 1
+  /\ pin_source (drv_unmarked false false) 1 = 1.
+Proof. exact (conj (proj1 drv_clocks_ok) drv_pin_sources). Qed.
+
+(* Soundness read the other way: a design with an unmarked crossing is rejected, for every map that
+   satisfies the characterisation (in particular the one the worklist computes, worklist_reaches_ok). *)
+Theorem crossing_is_rejected : forall n dom,
+  wf n = true -> domains_ok n dom = true -> has_crossing n -> flagged n dom <> [].
+Proof. exact crossing_rejected_thm. Qed.
+Print Assumptions crossing_is_rejected.
+
+Example one_view_driven_crossing_rejected :
+  has_crossing (drv_unmarked true false) /\ ~ has_crossing (drv_marked true false)
+  /\ flagged (drv_unmarked true false) (infer_real (drv_unmarked true false)) = [3%N]
+  /\ flagged (drv_unmarked false true) (infer_real (drv_unmarked false true)) = [3%N]
+  /\ flagged (drv_marked true false) (infer_real (drv_marked true false)) = [].
+Proof.
+  exact (conj (proj1 drv_export_only_crossing) (conj (proj2 drv_export_only_crossing)
+        (conj (proj1 (proj2 drv_verdicts)) (conj (proj1 (proj2 (proj2 drv_verdicts)))
+        (proj1 (proj2 (proj2 (proj2 (proj2 drv_verdicts))))))))).
+Qed.
